@@ -718,6 +718,7 @@ class Parser:
 
     def _breakpoint(self):
         self._code_gen.add_instruction(OpCode.BREAKPOINT)
+        return self.next_token()
 
     def token_error(self, message_format):
         return self.trigger_error(
